@@ -10,7 +10,7 @@ SPEC = dict(
     props_module="Refinery.Props.C14",
     gen_module="Refinery.Gen.Samplersel",
     quick=dict(cases=1600, len=30, shards=4),
-    thorough=dict(cases=64000, len=40, shards=16),
+    thorough=dict(cases=48000, len=40, shards=16),
     nontrivial=nontrivial,
     rule="cases = one generated configuration (main YAML with DatasetPrefix and trace/parent id field names + a rules file with "
          "deterministic / dynamic / rules-based samplers of pairwise different rates under environment names, dataset names, "
